@@ -569,6 +569,19 @@ pub fn eval_c15(st: &State) -> Eval {
             let mut incidence = vec![0usize; nv];
             let mut edges = 0usize;
             let nf = c.face_count();
+            // positional agreement: the face integrals of a cell with faces come one per face, in face order (what makes
+            // `neighbour(f)` / `shift(f)` / `face_vertices(f)` usable together with the f-th integral), also for faces that
+            // degenerate to an edge or a point
+            match guarded(|| c.compute_face_integrals::<(), FaceRec>(())) {
+                Err(p) => e.issue("face-integrals-of-cell-with-faces-panic", &case, format!("cell {}: {}", i, p.msg), rp()),
+                Ok(own) => {
+                    if own.len() != nf {
+                        e.issue("face-integrals-not-one-per-face", &case, format!("cell {}: {} faces, {} face integrals", i, nf, own.len()), rp());
+                    } else if let Some(f) = (0..nf).find(|&f| own[f].right() != c.neighbour(f) || own[f].shift().map(vec_bits) != c.shift(f).map(vec_bits) || vec_bits(own[f].integral().n_in) != vec_bits(c.clipping_plane(f).n)) {
+                        e.issue("face-integrals-not-in-face-order", &case, format!("cell {} face {}: neighbour {:?}, integral at the same position has right {:?}", i, f, c.neighbour(f), own[f].right()), rp());
+                    }
+                }
+            }
             for f in 0..nf {
                 e.transitions += 1;
                 let fv = c.face_vertices(f);
